@@ -679,7 +679,7 @@ def start_models(thorough):
     if thorough:
         submit("asnum_scan_l6", "M => R and R determinate: decimal table, every ordered list of <=2 distinct numbers over {1,2} with <=3 digits, "
                "every line of <=6 characters over {1,2,x}, hashes {11,99}", mc_cfg("scan2", 6, 2, 3), 12, heap="8g")
-        submit("asnum_scan_3lists", "same with every ordered list of <=3 distinct numbers of <=2 digits, lines <=5, hashes {0,5,11,99}", mc_cfg("scan", 5, 3, 2), 8, heap="8g")
+        submit("asnum_scan_3lists", "same with every ordered list of <=3 distinct numbers of <=2 digits (concatenation-closed lists included), lines <=5, hashes {11,99}", mc_cfg("scan2", 5, 3, 2), 8, heap="8g")
     else:
         submit("asnum_scan", "M => R and R determinate: decimal table, every ordered list of <=2 distinct numbers over {1,2} with <=2 digits, "
                "every line of <=5 characters over {1,2,x}, hashes {11,99}", mc_cfg("scan2", 5, 2, 2), 12)
